@@ -305,7 +305,9 @@ class Impl:
             G[op[1]].sort()
         elif k == "X_ConvReplaceAllUses":
             _, vs, rs, rgo = op
-            ir.convenience.replace_all_uses_with([V[x] for x in vs], [V[x] for x in rs], replace_graph_outputs=rgo)
+            a1 = V[vs] if isinstance(vs, int) else [V[x] for x in vs]
+            a2 = V[rs] if isinstance(rs, int) else [V[x] for x in rs]
+            ir.convenience.replace_all_uses_with(a1, a2, replace_graph_outputs=rgo)
         elif k == "X_ConvRenameValues":
             _, vs, names = op
             from onnx_ir import _convenience
@@ -916,6 +918,10 @@ class Gen:
                 if not ok:
                     return None
                 vs = [rng.choice(ok) for _ in range(rng.choice([0, 1, 2, 2, 3]))]
+                back = [v for v in bad if lst._ref_counter.get(V[v]) is not None]  # noqa: SLF001  (left this list earlier)
+                if malformed and back and vs and rng.random() < 0.6:
+                    vs.insert(rng.randrange(1, len(vs) + 1), rng.choice(back))
+                    return ["IOExtend", kind, g, vs, self._extra(g)]
                 if site and bad:
                     if not vs:
                         vs = [rng.choice(ok)]
@@ -1343,7 +1349,7 @@ def run_check(ck, which: str) -> None:  # noqa: C901, PLR0912, PLR0915
         g = Gen(rng, use_functions=(i % 3 == 0), site_rate=(0.04 if i % 4 else 0.15))
         hists.append(g.history(rng.randrange(5, 61 if not ck.thorough else 151))["steps"])
         tags.append("random")
-    for _ in range(80 if not ck.thorough else 1200):
+    for _ in range(120 if not ck.thorough else 1500):
         hists.append(run_history(gen_rejections(rng))["steps"])
         tags.append("rejection-shapes")
     ex_len = 2 if not ck.thorough else 3
@@ -1654,7 +1660,16 @@ def gen_multi_rau(rng) -> list[list]:
     ok = b.value("u2")
     foreign = b.value("u3")
     b.graph([foreign], [], [], [])
-    reps = [ok, foreign] if rng.random() < 0.7 else [ok, b.value(None)]
+    r = rng.random()
+    if r < 0.4:
+        # unequal lengths (also a single value against several replacements): rejected, although the common prefix
+        # consists of values that have consumers / are graph outputs and could be replaced
+        spare = [b.value(None) for _ in range(3)]
+        vs, reps = rng.choice([(outs, [ok]), (outs, [ok, spare[0], spare[1]]), (outs[0], [ok, spare[0]]),
+                               ([outs[0]], [ok, spare[0], spare[1]]), (outs, ok), ([x, outs[0]], [ok])])
+        b.ops.append(["X_ConvReplaceAllUses", vs, reps, rng.random() < 0.7])
+        return b.ops
+    reps = [ok, foreign] if r < 0.8 else [ok, b.value(None)]
     b.ops.append(["X_ConvReplaceAllUses", outs, reps, True])
     return b.ops
 
@@ -1682,7 +1697,7 @@ def gen_rejections(rng) -> list[list]:
     g1 = b.graph([f], [p0], [], [m0])
     free = [b.node([o1])[0] for _ in range(3)]                   # graph-less, unnamed, outputs unnamed
     lone = b.node([])[0]
-    shape = rng.choice(["insert-ref", "insert-ref", "insert-foreign", "extend-foreign", "io-extend", "io-insert", "io-setitem", "io-setslice",
+    shape = rng.choice(["insert-ref", "insert-ref", "insert-foreign", "extend-foreign", "io-extend", "io-insert", "io-setitem", "io-setslice", "io-returning", "io-returning",
                         "rau", "rau", "rename", "rename", "init-set", "remove-safe", "resize-outputs"])
     k = rng.randrange(1, 4)
     if shape == "insert-ref":
@@ -1711,6 +1726,21 @@ def gen_rejections(rng) -> list[list]:
             op = ["IOInsert", kind, g0, rng.choice([0, 1, -1, 5]), bad]
         else:
             op = ["IOSetItem", kind, g0, rng.choice([0, -1]), bad]
+    elif shape == "io-returning":
+        kind = rng.choice(["KIn", "KOut"])
+        ex = val("u5")                                                # belongs to g0's list, leaves it, is adopted by g1
+        b.ops.append(["IOAppend", kind, g0, ex, {}])
+        if rng.random() < 0.5:
+            b.ops.append(["IOAppend", kind, g0, ex, {}])              # listed twice, removed twice
+            b.ops.append(["IORemove", kind, g0, ex])
+        b.ops.append(rng.choice([["IOPop", kind, g0, -1], ["IORemove", kind, g0, ex]]))
+        b.ops.append(["IOAppend", rng.choice(["KIn", "KOut"]), g1, ex, {}])
+        okv = [val(None) for _ in range(k)]
+        vs = list(okv)
+        vs.insert(rng.randrange(1, len(vs) + 1), ex)                  # position >= 1: something acceptable comes first
+        n_cur = {"KIn": 1, "KOut": 2}[kind]
+        op = rng.choice([["IOExtend", kind, g0, vs, {}], ["IOSetSlice", kind, g0, n_cur, n_cur, vs],
+                         ["IOSetSlice", kind, g0, 0, 1, vs]])
     elif shape == "rau":
         op = ["VReplaceAllUses", rng.choice([o0, o1]), rng.choice([f, p0]), True]
     elif shape == "rename":
